@@ -98,4 +98,51 @@ def shortArraysO : Obj → Bool
   | (_, v) :: r => shortArrays v && shortArraysO r
 end
 
+/-! ### canonical form -/
+
+/-- the first key of a member list is above `k` (or there is none) -/
+def headAbove (k : Bytes) : Obj → Bool
+  | [] => true
+  | (k', _) :: _ => bytesLt k k'
+
+mutual
+/-- every object lists its keys in strictly increasing byte order — the order `json.Marshal`
+    prints a Go map in; in this form two trees are equal iff their encodings are -/
+def canonical : Json → Bool
+  | .arr xs => canonicalL xs
+  | .obj kvs => canonicalO kvs
+  | _ => true
+def canonicalL : List Json → Bool
+  | [] => true
+  | x :: xs => canonical x && canonicalL xs
+def canonicalO : Obj → Bool
+  | [] => true
+  | (k, v) :: r => headAbove k r && canonical v && canonicalO r
+end
+
+mutual
+/-- equal as nested Go maps / slices: same scalars, element-wise equal arrays, objects with
+    the same keys and equal values under them — regardless of the order members are listed in -/
+def mapEq : Json → Json → Bool
+  | .null, .null => true
+  | .bool a, .bool b => a == b
+  | .num a, .num b => a == b
+  | .str a, .str b => a == b
+  | .arr xs, .arr ys => mapEqL xs ys
+  | .obj a, .obj b => b.all (fun e => (lookup e.1 a).isSome) && mapEqO a b
+  | _, _ => false
+def mapEqL : List Json → List Json → Bool
+  | [], [] => true
+  | x :: xs, y :: ys => mapEq x y && mapEqL xs ys
+  | _, _ => false
+/-- every member of the first list has an equal value under the same key in the second (the
+    object case of `mapEq` adds: and the second has no key the first lacks) -/
+def mapEqO : Obj → Obj → Bool
+  | [], _ => true
+  | (k, v) :: r, b =>
+    (match lookup k b with
+      | some w => mapEq v w
+      | none => false) && mapEqO r b
+end
+
 end CaddyModel.C12
